@@ -685,15 +685,21 @@ def _squeeze_by_scaling(bias, heights, monotonicity, output_min, output_max,
   if output_max_constraints == BoundConstraintsType.NONE:
     return bias, heights
 
+  # Bias itself must not exceed the upper bound, otherwise no scaling of the
+  # (non-negative) heights can bring the outputs back into the range.
+  bias = tf.minimum(bias, output_max)
   delta = output_max - bias
-  # For better stability use tf.where rather than the more standard approach:
-  # heights *= tf.reduce_sum(heights) / max(delta, eps)
-  # in order to keep everything strictly unchanged for small deltas, rather than
-  # increase heights by factor 1/eps and still don't meet constraints.
-  scaling_factor = tf.where(delta > 0.001,
-                            tf.reduce_sum(heights, axis=0) / delta,
-                            tf.ones_like(delta))
-  heights = heights / tf.maximum(scaling_factor, 1.0)
+  sum_heights = tf.reduce_sum(heights, axis=0)
+  # Scale heights down so that they sum up to at most delta. Multiplying by
+  # delta / sum_heights < 1 rather than dividing by sum_heights / delta keeps
+  # the factor bounded for small deltas (heights go to 0 together with delta)
+  # and keeps everything strictly unchanged if the bound is already met.
+  needs_squeeze = sum_heights > delta
+  scaling_factor = tf.where(
+      needs_squeeze,
+      delta / tf.where(needs_squeeze, sum_heights, tf.ones_like(sum_heights)),
+      tf.ones_like(delta))
+  heights = heights * scaling_factor
   return bias, heights
 
 
